@@ -235,36 +235,32 @@ def check(run):
                 f"truth table: {f} differs while every other compared field agrees, yet __eq__ returns True",
                 facts={"assignment": dict(zip([norm(a) for a in atoms], bad))},
             )
-    # 5. __ne__ is the negation of __eq__ on every return
-    rets = [n for n in ast.walk(ne.node) if isinstance(n, ast.Return)]
-    if not rets:
-        run.violation("F-PATH/ne-negation", "Grid.__ne__:return", where(ne), "__ne__ has no return")
+    # 5. __ne__ is the negation of __eq__: its body is interpreted for both truth values of the single atom  self.__eq__(other) / self == other
     ne_self, ne_other = (ne.params() + [None, None])[:2]
-    for r in rets:
-        v = r.value
-        k = "Grid.__ne__:return"
-        ok = False
-        definite_bad = False
-        if isinstance(v, ast.UnaryOp) and isinstance(v.op, ast.Not):
-            inner = v.operand
-            if isinstance(inner, ast.Call) and isinstance(inner.func, ast.Attribute) and inner.func.attr == "__eq__":
-                ok = isinstance(inner.func.value, ast.Name) and inner.func.value.id == ne_self
-                ok = ok and len(inner.args) == 1 and isinstance(inner.args[0], ast.Name) and inner.args[0].id == ne_other
-            elif isinstance(inner, ast.Compare) and len(inner.ops) == 1 and isinstance(inner.ops[0], ast.Eq):
-                names = {norm(inner.left), norm(inner.comparators[0])}
-                ok = names == {ne_self, ne_other}
-        elif isinstance(v, ast.Call) and isinstance(v.func, ast.Attribute) and v.func.attr == "__eq__":
-            definite_bad = True
-        elif isinstance(v, ast.Compare) and len(v.ops) == 1 and isinstance(v.ops[0], ast.Eq):
-            definite_bad = True
-        elif isinstance(v, ast.Constant):
-            definite_bad = True
-        if ok:
-            run.holds("F-PATH/ne-negation", k, where(ne, r), "returns not __eq__(other)")
-        elif definite_bad:
-            run.violation("F-PATH/ne-negation", k, where(ne, r), f"__ne__ returns {norm(v)}, not the negation of __eq__")
+    k = "Grid.__ne__:return"
+    try:
+        n_atoms, n_table = decision_table(ne.node)
+    except AnalysisIncomplete as e:
+        n_atoms, n_table = None, None
+        run.incomplete("F-PATH/ne-negation", k, where(ne), f"body not of the assign/if/return shape: {e}")
+    if n_atoms is not None:
+        def is_eq_call(a):
+            if isinstance(a, ast.Call) and isinstance(a.func, ast.Attribute) and a.func.attr == "__eq__":
+                return isinstance(a.func.value, ast.Name) and a.func.value.id == ne_self and len(a.args) == 1 and isinstance(a.args[0], ast.Name) and a.args[0].id == ne_other
+            if isinstance(a, ast.Compare) and len(a.ops) == 1 and isinstance(a.ops[0], ast.Eq):
+                return {norm(a.left), norm(a.comparators[0])} == {ne_self, ne_other}
+            return False
+        if len(n_atoms) == 1 and is_eq_call(n_atoms[0]):
+            got = {vals[0]: res for vals, res in n_table.items()}
+            if got.get(True) == ("const", False) and got.get(False) == ("const", True):
+                run.holds("F-PATH/ne-negation", k, where(ne), "returns False exactly when __eq__(other) is true")
+            else:
+                run.violation("F-PATH/ne-negation", k, where(ne), f"__ne__ returns {got.get(True, ('?', '?'))[1]} when the grids are equal and {got.get(False, ('?', '?'))[1]} when they are not: not the negation of __eq__")
+        elif not n_atoms:
+            vals = {res for res in n_table.values()}
+            run.violation("F-PATH/ne-negation", k, where(ne), f"__ne__ does not depend on __eq__ (returns {sorted(str(v[1]) for v in vals)})")
         else:
-            run.incomplete("F-PATH/ne-negation", k, where(ne, r), f"return expression not recognised: {norm(v)}")
+            run.incomplete("F-PATH/ne-negation", k, where(ne), f"__ne__ depends on {[norm(a)[:50] for a in n_atoms]}: not recognised as a function of self.__eq__(other) alone")
     # "a copy of a grid equals the grid": copy() re-runs Grid.__init__, so what the getters store must already be in the range __init__ normalises to,
     # and that normalisation must be idempotent (the modulo form); both are C04 obligations evaluated here as well
     from ..rules.common import dataflow, emit
